@@ -14,14 +14,17 @@ from ..core import MachineryFailure
 STD_ORDER = ["CDR3A", "TRAV", "TRAJ", "MHCA", "CDR3B", "TRBV", "TRBJ", "MHCB", "Epitope"]
 # concrete cell texts per standard column: id 1 valid, 2 non-standard spelling, 3 junk
 POOL = {
-    "CDR3A": ["CAVRDSNYQLIW", "AVRDSNYQLI", "C1VR"], "CDR3B": ["CASSLGQAYEQYF", "ASSLGQAYEQY", "not a cdr3"],
-    "TRAV": ["TRAV12-2*01", "av26.1*1", "unknown"], "TRBV": ["TRBV7-9*01", "TCRBV28S1*01", "foobar"],
-    "TRAJ": ["TRAJ43*01", "aj43*1", "unknown"], "TRBJ": ["TRBJ2-7*01", "TCRBJ2S6*01", "n/a"],
-    "MHCA": ["HLA-A*02:01", "b8", "zzz"], "MHCB": ["B2M", "b2m", "???"],
-    "Epitope": ["GILGFVFTL", "gilgfvftl", "NOT-A-PEPTIDE-1"],
+    # id 1 valid, 2 non-standard spelling, 3 junk, 4 valid but special (non-functional gene / needs C..F completion / protein-level MHC)
+    "CDR3A": ["CAVRDSNYQLIW", "AVRDSNYQLI", "C1VR", "AVRDSNYQLIW"], "CDR3B": ["CASSLGQAYEQYF", "ASSLGQAYEQY", "not a cdr3", "CASSLGQAYEQY"],
+    "TRAV": ["TRAV12-2*01", "av26.1*1", "unknown", "TRAV8-5*01"], "TRBV": ["TRBV7-9*01", "TCRBV28S1*01", "foobar", "TRBV1*01"],
+    "TRAJ": ["TRAJ43*01", "aj43*1", "unknown", "TRAJ51*01"], "TRBJ": ["TRBJ2-7*01", "TCRBJ2S6*01", "n/a", "TRBJ2-2P*01"],
+    "MHCA": ["HLA-A*02:01", "b8", "zzz", "HLA-DRA*01:01"], "MHCB": ["B2M", "b2m", "???", "HLA-DRB1*15:01"],
+    "Epitope": ["GILGFVFTL", "gilgfvftl", "NOT-A-PEPTIDE-1", "NLVPMVATV"],
 }
-OPTION_SETS = [dict(), dict(tcr_precision="allele", mhc_precision="allele"), dict(tcr_enforce_functional=False, strict_cdr3_standardization=True),
-               dict(species="musmusculus")]
+# executed in this order in ONE interpreter: the options of an earlier call must not influence a later one (the default set
+# comes again after the permissive one)
+OPTION_SETS = [dict(tcr_enforce_functional=False, strict_cdr3_standardization=True), dict(), dict(tcr_precision="allele", mhc_precision="allele"),
+               dict(species="musmusculus"), dict()]
 INVS = ("CellLocal", "MissingStaysMissing", "ExtraColumnsKept", "MergeIsJoin")
 
 
@@ -61,9 +64,9 @@ class Interner:
         return d[text]
 
 
-def cfg_text(kinds, maxlen=3, chars=(1, 4, 18, 0, 20, 21), maxrows=2, colsets="CS1", maxtables=3, keyvals=(1, 2, 3), mutations=(), invs=INVS, emit=True):
+def cfg_text(kinds, maxlen=3, chars=(1, 4, 18, 0, 20, 21), maxrows=2, colsets="CS1", maxtables=3, keyvals=(1, 2, 3), mutations=(), invs=INVS, emit=True, cellids=(1, 2, 3, 4)):
     t = "SPECIFICATION Spec\nCONSTANTS\n"
-    t += f"  MaxLen = {maxlen}\n  Chars = {{{', '.join(map(str, chars))}}}\n  MaxRows = {maxrows}\n  ColSets <- {colsets}\n  CellIds = {{1, 2, 3}}\n"
+    t += f"  MaxLen = {maxlen}\n  Chars = {{{', '.join(map(str, chars))}}}\n  MaxRows = {maxrows}\n  ColSets <- {colsets}\n  CellIds = {{{', '.join(map(str, cellids))}}}\n"
     t += f"  MaxTables = {maxtables}\n  KeyVals = {{{', '.join(map(str, keyvals))}}}\n"
     t += "  Kinds = {" + ", ".join(f'"{k}"' for k in kinds) + "}\n"
     t += "  Mutations = {" + ", ".join(f'"{k}"' for k in mutations) + "}\n"
@@ -239,14 +242,16 @@ def run(ctx):
     d = tempfile.mkdtemp(prefix="pvstd_")
     try:
         n = 0
-        for oi, opts in enumerate(OPTION_SETS[: (2 if q else 4)]):
+        for oi, opts in enumerate(OPTION_SETS[: (2 if q else 5)]):
             interner = Interner(opts)
             stdfile = os.path.join(d, f"std{oi}.json")
             with open(stdfile, "w") as f:
                 json.dump(interner.table, f)
             kinds = ["std"] + (["pred", "merge"] if oi == 0 else [])
-            res = run_cfg(ctx, f"cleaning{oi}", cfg_text(kinds, maxlen=3 if q else 4, maxrows=2, colsets="CS1" if (q or oi) else "CS2",
-                                                          maxtables=3, keyvals=(1, 2) if q else (1, 2, 3)), stdfile)
+            # quick: all four cell classes in one-row tables for the first option set, two-row tables over two classes afterwards
+            res = run_cfg(ctx, f"cleaning{oi}", cfg_text(kinds, maxlen=3 if q else 4, maxrows=(1 if oi == 0 else 2) if q else 2,
+                                                          cellids=((1, 2, 3, 4) if oi == 0 else (1, 4)) if q else (1, 2, 3, 4),
+                                                          colsets="CS1" if (q or oi) else "CS2", maxtables=3, keyvals=(1, 2) if q else (1, 2, 3)), stdfile)
             for doc in res.printed:
                 if "kind" not in doc:
                     continue
@@ -254,7 +259,7 @@ def run(ctx):
                 if doc["kind"] == "pred":
                     replay_pred(ctx, doc, n)
                 elif doc["kind"] == "std":
-                    if q and n % 4:
+                    if n % (2 if q else 3):
                         continue
                     replay_std(ctx, doc, interner, opts, n)
                 else:
